@@ -489,6 +489,30 @@ impl ASN1Type {
                     }
                 }
             }
+            ASN1Type::Integer(i) if i.distinguished_values.is_some() => {
+                // The named numbers of the type itself govern the bounds of its own constraints
+                // (`INTEGER { top(1000) } (0..top)`, also as an anonymous component type):
+                // they are looked up before any other definition of that name
+                let own_named_numbers = BTreeMap::from([(
+                    name.clone(),
+                    ToplevelDefinition::Type(ToplevelTypeDefinition {
+                        comments: String::new(),
+                        tag: None,
+                        name: name.clone(),
+                        ty: ASN1Type::Integer(Integer {
+                            constraints: Vec::new(),
+                            distinguished_values: i.distinguished_values.clone(),
+                        }),
+                        parameterization: None,
+                        module_header: None,
+                    }),
+                )]);
+                for c in i.constraints.iter_mut() {
+                    // references that are not named numbers of this type stay as they are here
+                    let _ = c.link_cross_reference(name, &own_named_numbers);
+                    c.link_cross_reference(name, tlds)?;
+                }
+            }
             ty => {
                 if let Some(c) = ty.constraints_mut() {
                     for c in c.iter_mut() {
